@@ -441,4 +441,195 @@ theorem fold_els (cb : List Tok → List Tok) (els : List El) :
       rw [hm]
       simp
 
+/-! ### the RFC 822 address list as a tree: mailboxes and groups of mailboxes, comma-separated -/
+
+/-- an address (token lists right to left, as everywhere here) -/
+inductive Addr
+  | mbox (it : Item)
+  | group (name : List Tok) (members : List Item)    -- `name : m₁, …, mₖ ;` — members listed right to left
+
+def Addr.ok : Addr → Prop
+  | .mbox it => it.ok
+  | .group name members => Tok.comma ∉ name ∧ ∀ m ∈ members, m.ok
+
+/-- the mailboxes an address stands for -/
+def Addr.mailboxes : Addr → List (List Tok)
+  | .mbox it => [it.addr]
+  | .group _ members => members.map Item.addr
+
+def flatItems : List Item → List El
+  | [] => []
+  | [i] => [.mbox i]
+  | i :: j :: r => .mbox i :: .comma :: flatItems (j :: r)
+
+def Addr.els : Addr → List El
+  | .mbox it => [.mbox it]
+  | .group name members => .gclose :: (flatItems members ++ [.gopen name])
+
+/-- the elements of a comma-separated address list (listed right to left) -/
+def flatAddrs : List Addr → List El
+  | [] => []
+  | [a] => a.els
+  | a :: b :: r => a.els ++ .comma :: flatAddrs (b :: r)
+
+/-- the grammar automaton run over a list of elements -/
+def runEls : Bool → Edge → List El → Option (Bool × Edge)
+  | g, e, [] => some (g, e)
+  | g, e, el :: r =>
+    match elNext g e el with
+    | some (g', e') => runEls g' e' r
+    | none => none
+
+theorem validEls_run (els : List El) : ∀ (g : Bool) (e : Edge),
+    validEls g e els = (match runEls g e els with | some (g', _) => !g' | none => false) := by
+  induction els with
+  | nil => intro g e; simp [validEls, runEls]
+  | cons el r ih =>
+    intro g e
+    simp only [validEls, runEls]
+    cases elNext g e el with
+    | none => rfl
+    | some p => obtain ⟨g', e'⟩ := p; exact ih g' e'
+
+theorem runEls_append (x y : List El) : ∀ (g : Bool) (e : Edge),
+    runEls g e (x ++ y) = (match runEls g e x with | some (g', e') => runEls g' e' y | none => none) := by
+  induction x with
+  | nil => intro g e; simp [runEls]
+  | cons el r ih =>
+    intro g e
+    simp only [List.cons_append, runEls]
+    cases elNext g e el with
+    | none => rfl
+    | some p => obtain ⟨g', e'⟩ := p; exact ih g' e'
+
+theorem elNext_mbox_fresh (g : Bool) (it : Item) : ∃ e', elNext g .fresh (.mbox it) = some (g, e') ∧ e' ≠ .colon := by
+  cases it with
+  | plain m =>
+    cases h : endW true m <;> simp [elNext, h]
+  | angle inner ph => simp [elNext]
+
+theorem runEls_items (g : Bool) (items : List Item) :
+    ∃ e', runEls g .fresh (flatItems items) = some (g, e') ∧ e' ≠ .colon := by
+  induction items with
+  | nil => exact ⟨.fresh, rfl, by simp⟩
+  | cons i r ih =>
+    obtain ⟨e1, h1, hne⟩ := elNext_mbox_fresh g i
+    cases r with
+    | nil => exact ⟨e1, by simp [flatItems, runEls, h1], hne⟩
+    | cons j r' =>
+      obtain ⟨e2, h2, hne2⟩ := ih
+      have hc : ∀ e, elNext g e .comma = some (g, .fresh) := fun e => rfl
+      exact ⟨e2, by simp only [flatItems, runEls, h1, hc, h2], hne2⟩
+
+theorem runEls_addr (a : Addr) : ∃ e', runEls false .fresh a.els = some (false, e') := by
+  cases a with
+  | mbox it =>
+    obtain ⟨e1, h1, _⟩ := elNext_mbox_fresh false it
+    exact ⟨e1, by simp [Addr.els, runEls, h1]⟩
+  | group name members =>
+    obtain ⟨e1, h1, hne⟩ := runEls_items true members
+    refine ⟨.colon, ?_⟩
+    simp only [Addr.els, runEls, elNext]
+    simp only [reduceCtorEq, Bool.false_eq_true, or_self, if_false]
+    rw [runEls_append, h1]
+    simp [runEls, elNext, hne]
+
+theorem runEls_addrs (L : List Addr) : ∃ e', runEls false .fresh (flatAddrs L) = some (false, e') := by
+  induction L with
+  | nil => exact ⟨.fresh, rfl⟩
+  | cons a r ih =>
+    obtain ⟨e1, h1⟩ := runEls_addr a
+    cases r with
+    | nil => exact ⟨e1, by simpa [flatAddrs] using h1⟩
+    | cons b r' =>
+      obtain ⟨e2, h2⟩ := ih
+      refine ⟨e2, ?_⟩
+      have hc : ∀ e, elNext false e .comma = some (false, .fresh) := fun e => rfl
+      simp only [flatAddrs]
+      rw [runEls_append, h1]
+      simp only [runEls, hc, h2]
+
+/-- every comma-separated list of mailboxes and groups is accepted by the grammar automaton -/
+theorem validEls_addrs (L : List Addr) : validEls false .fresh (flatAddrs L) = true := by
+  obtain ⟨e', h⟩ := runEls_addrs L
+  rw [validEls_run, h]
+  rfl
+
+theorem mboxes_append (x y : List El) : mboxes (x ++ y) = mboxes x ++ mboxes y := by
+  induction x with
+  | nil => rfl
+  | cons el r ih => cases el <;> simp [mboxes, ih]
+
+theorem mboxes_items (items : List Item) : mboxes (flatItems items) = items.map Item.addr := by
+  induction items with
+  | nil => rfl
+  | cons i r ih =>
+    cases r with
+    | nil => simp [flatItems, mboxes]
+    | cons j r' => simp only [flatItems, mboxes, ih, List.map_cons]
+
+theorem mboxes_addr (a : Addr) : mboxes a.els = a.mailboxes := by
+  cases a with
+  | mbox it => simp [Addr.els, mboxes, Addr.mailboxes]
+  | group name members =>
+    simp only [Addr.els, mboxes, mboxes_append, mboxes_items, Addr.mailboxes]
+    simp [mboxes]
+
+theorem mboxes_addrs (L : List Addr) : mboxes (flatAddrs L) = L.flatMap Addr.mailboxes := by
+  induction L with
+  | nil => rfl
+  | cons a r ih =>
+    cases r with
+    | nil => simp [flatAddrs, mboxes_addr]
+    | cons b r' =>
+      simp only [flatAddrs, mboxes_append, mboxes, mboxes_addr, ih, List.flatMap_cons]
+
+theorem ok_items (items : List Item) (h : ∀ m ∈ items, m.ok) : ∀ el ∈ flatItems items, el.ok := by
+  induction items with
+  | nil => intro el hel; simp [flatItems] at hel
+  | cons i r ih =>
+    cases r with
+    | nil =>
+      intro el hel
+      simp only [flatItems, List.mem_cons, List.not_mem_nil, or_false] at hel
+      subst hel; exact h i (by simp)
+    | cons j r' =>
+      intro el hel
+      simp only [flatItems, List.mem_cons] at hel
+      rcases hel with rfl | rfl | hel
+      · exact h i (by simp)
+      · trivial
+      · exact ih (fun m hm => h m (by simp [hm])) el (by simpa [flatItems] using hel)
+
+theorem ok_addr (a : Addr) (h : a.ok) : ∀ el ∈ a.els, el.ok := by
+  cases a with
+  | mbox it =>
+    intro el hel
+    simp only [Addr.els, List.mem_cons, List.not_mem_nil, or_false] at hel
+    subst hel; exact h
+  | group name members =>
+    obtain ⟨h1, h2⟩ := h
+    intro el hel
+    simp only [Addr.els, List.mem_cons, List.mem_append, List.not_mem_nil, or_false] at hel
+    rcases hel with rfl | hel | rfl
+    · trivial
+    · exact ok_items members h2 el hel
+    · exact h1
+
+theorem ok_addrs (L : List Addr) (h : ∀ a ∈ L, a.ok) : ∀ el ∈ flatAddrs L, el.ok := by
+  induction L with
+  | nil => intro el hel; simp [flatAddrs] at hel
+  | cons a r ih =>
+    cases r with
+    | nil =>
+      intro el hel
+      exact ok_addr a (h a (by simp)) el (by simpa [flatAddrs] using hel)
+    | cons b r' =>
+      intro el hel
+      simp only [flatAddrs, List.mem_append, List.mem_cons] at hel
+      rcases hel with hel | rfl | hel
+      · exact ok_addr a (h a (by simp)) el hel
+      · trivial
+      · exact ih (fun x hx => h x (by simp [hx])) el hel
+
 end Nq.Lemmas.C17
